@@ -601,3 +601,22 @@ pub enum COp {
   CloseChild(usize),
   Retain(usize),
 }
+
+// ------------------------------------------------------ share / publish histories (C11)
+
+#[derive(Clone, Debug, PartialEq, Eq, Hash)]
+pub enum ShSrc {
+  /// cold synchronous source emitting these events at subscription
+  Cold(Vec<Ev>),
+  Hot,
+  Interval(u64),
+}
+
+#[derive(Clone, Debug, PartialEq, Eq, Hash)]
+pub enum ShOp {
+  Subscribe,
+  Unsub(usize),
+  Emit(Ev),
+  Advance(u64),
+  Connect,
+}
